@@ -53,7 +53,9 @@ class ComputeTypeVisitor(Visitor.DefaultVisitor):
         scope = ctx[-1]
         fields = OrderedDict()
         for field in decl.GetFields():
-            self.v_Visit(field, ctx)
+            # A field is not a variable of the enclosing scope, only its type
+            # has to be resolved there
+            field.ResolveType(scope)
             fields[field.GetName()] = field.GetType()
         structType = types.StructType(decl.GetName(), fields)
         scope.RegisterType(decl.GetName(), structType)
